@@ -96,6 +96,11 @@ def corpus_cases():
     ]
 
 
+def timed(case):
+    o = case.get("opts") or {}
+    return bool(int(o.get("ct", 0)) or int(o.get("ut", 0)))
+
+
 def base_key(case):
     return json.dumps([case["fanout"], case["hosts"], sorted((case.get("opts") or {}).items())], sort_keys=True)
 
@@ -165,7 +170,9 @@ def run(ctx, PROPS, LEVEL):
                    "worker holding either mutex, 0..3 seconds on the clock between the first ^C and a second ^C / ^Z "
                    "(1 = exactly INTR_TIME), signals around every step of the shutdown tail, each with every signal plan, "
                    "with and without -b; (a3) ^C then ^C / ^Z with the first at every position and the second at every "
-                   "distance on two tiny configurations; (b) exhaustive: state-hashed DFS over ALL schedules x ALL "
+                   "distance on two tiny configurations; (a4) -u 2 with a hanging, a slow and a pending host: a signal at "
+                   "every position while the watchdog times hosts out (monitors only: the LTS has no clock for the "
+                   "watchdog); (b) exhaustive: state-hashed DFS over ALL schedules x ALL "
                    "delivery points x clock ticks of tiny configurations (distribution.dfs); (c) every position: for "
                    "each small configuration (N<=3) and base schedule the first signal of each plan (INT, INT-INT, "
                    "INT-TSTP, TSTP; with and without -b) is delivered at EVERY step of the trace, the second at a set of "
@@ -238,7 +245,10 @@ def run(ctx, PROPS, LEVEL):
                 ok = False
                 dist["out_of_domain"] += 1
             doms.append(ok)
-        batches = [project_sig(r, variant, wform, sform) if ok else None for r, ok in zip(results, doms)]
+        # (runs with a connect / command time-out are judged by the monitors only: the LTS has the watchdog's mutex
+        #  discipline, not its clock)
+        batches = [project_sig(r, variant, wform, sform) if ok and not timed(r["case"]) else None
+                   for r, ok in zip(results, doms)]
         idx = [i for i, b in enumerate(batches) if b is not None]
         verdicts = accept_all(ctx, [batches[i] for i in idx]) if idx else []
         for i, bad in zip(idx, verdicts):
@@ -252,7 +262,8 @@ def run(ctx, PROPS, LEVEL):
             m = r["M"] or {}
             st = m.get("status", "crash")
             dist["status"][st] = dist["status"].get(st, 0) + 1
-            offs, facts = offenders(r, base_of(r["case"]))
+            # (with time-outs the clock decides which hosts are given up: no signal-free twin to compare with)
+            offs, facts = offenders(r, None if timed(r["case"]) else base_of(r["case"]))
             for e in facts["episodes"]:
                 k = "%s:%s:%s" % (SGN.get(e["sig"], e["sig"]), e["kind"],
                                   "exit" if e["exit"] is not None else "cancel" if e["cancel"] else
@@ -342,6 +353,20 @@ def run(ctx, PROPS, LEVEL):
                 if not enough():
                     consume(sched.run_many(exe, cs[i:i + 1500], ctx.scratch), plan)
         ctx.log("every pair of positions: %d runs" % len(prs))
+
+    # (a4) interrupts while the watchdog is timing hosts out (-u 2: one host hangs, one is slow, one is pending): a signal
+    #      at every position of the run, incl. between the watchdog's lock, its pthread_kill and its unlock
+    if not enough():
+        tcs = sigphase.timeout_cases(exe, ctx.scratch, rng)
+        byplan = {}
+        for c in tcs:
+            byplan.setdefault(c["_plan"], []).append(c)
+            dist["plans"][c["_plan"]] = dist["plans"].get(c["_plan"], 0) + 1
+            dist["batch"][str(c["opts"]["batch"])] += 1
+            dist["situations"][c["_class"]] = dist["situations"].get(c["_class"], 0) + 1
+        for plan, cs in byplan.items():
+            consume(sched.run_many(exe, cs, ctx.scratch), plan)
+        ctx.log("interrupts during time-outs: %d runs" % len(tcs))
 
     # (b) exhaustive DFS: all schedules x all delivery points x ticks
     one = [{"name": "h0", "out": [[1, b"o0-0\n".hex()], [1, "EOF"]]}]
